@@ -42,7 +42,7 @@ func init() {
 			ruleNoAliasAfterTruncate(r, "R11", "/iscp")
 			ruleDispatchLoopsSurvive(r, "R12", "/wire", "/iscp") // every result of a batched ack reaches its waiter
 			ruleC01R13(r)
-			r.borrow("C20", func() { ruleC20P5(r, cut) })        // what counts as an empty buffer decides whether buffered points are ever sent and acknowledged
+			r.borrow("C20", func() { ruleC20P5(r, cut) }) // what counts as an empty buffer decides whether buffered points are ever sent and acknowledged
 		},
 	})
 }
@@ -929,34 +929,69 @@ func ruleC01R10(r *Run) {
 		for _, c := range findCalls(fn, false, "context.WithTimeout") {
 			call := c.(*ssa.Call)
 			// dominated by the true edge of AckTimeout != 0
-			ok := false
+			configured := func(b *ssa.BasicBlock) bool {
+				ok := false
+				allInstrs(fn, func(ins ssa.Instruction) {
+					ifs, isIf := ins.(*ssa.If)
+					if !isIf {
+						return
+					}
+					bo, isBo := ifs.Cond.(*ssa.BinOp)
+					if !isBo {
+						return
+					}
+					kz, isK := constInt(bo.Y)
+					if !isK || kz != 0 || !hasLeaf(p.Leaves(bo.X, provOpts{}), "field:/iscp.UpstreamConfig.AckTimeout") {
+						return
+					}
+					edge := 0
+					if bo.Op == token.EQL {
+						edge = 1
+					} else if bo.Op != token.NEQ {
+						return
+					}
+					if edgeDominates(ifs.Block(), ifs.Block().Succs[edge], b) {
+						ok = true
+					}
+				})
+				return ok
+			}
+			ok := configured(call.Block())
+			// or the wait is bounded for everybody and what is opt-in is the timeout's effect: every delivery of the
+			// nil result (which makes the sender give the chunk up) lies on the AckTimeout != 0 edge
+			nilSends, okAlt := 0, true
 			allInstrs(fn, func(ins ssa.Instruction) {
-				ifs, isIf := ins.(*ssa.If)
-				if !isIf {
-					return
+				isNil := false
+				switch x := ins.(type) {
+				case *ssa.Send:
+					isNil = isNilConst(x.X)
+				case *ssa.Select:
+					for _, st := range x.States {
+						if st.Dir == types.SendOnly && isNilConst(st.Send) {
+							isNil = true
+						}
+					}
+				case *ssa.Call:
+					if x.Call.StaticCallee() == nil || closureOf(x.Call.Value) != nil {
+						for _, a := range x.Call.Args {
+							if _, isPtr := a.Type().Underlying().(*types.Pointer); isPtr && isNilConst(a) {
+								isNil = true
+							}
+						}
+					}
 				}
-				bo, isBo := ifs.Cond.(*ssa.BinOp)
-				if !isBo {
-					return
-				}
-				kz, isK := constInt(bo.Y)
-				if !isK || kz != 0 || !hasLeaf(p.Leaves(bo.X, provOpts{}), "field:/iscp.UpstreamConfig.AckTimeout") {
-					return
-				}
-				edge := 0
-				if bo.Op == token.EQL {
-					edge = 1
-				} else if bo.Op != token.NEQ {
-					return
-				}
-				if edgeDominates(ifs.Block(), ifs.Block().Succs[edge], call.Block()) {
-					ok = true
+				if isNil {
+					nilSends++
+					if !configured(ins.Block()) {
+						okAlt = false
+					}
 				}
 			})
+			okAlt = okAlt && nilSends > 0
 			found = true
-			r.Check(fnName(fn)+" timeout only when configured", ok, posOf(p, call), fnName(fn), "context.WithTimeout must be reached only on the AckTimeout != 0 edge")
+			r.Check(fnName(fn)+" timeout only when configured", ok || okAlt, posOf(p, call), fnName(fn), "context.WithTimeout must be reached only on the AckTimeout != 0 edge (or every delivery of the nil result must lie on that edge)")
 			dl := p.Leaves(call.Call.Args[1], provOpts{})
-			r.Check(fnName(fn)+" timeout value", hasLeaf(dl, "field:/iscp.UpstreamConfig.AckTimeout") && len(leavesWithin(dl, []string{"field:/iscp.UpstreamConfig.AckTimeout", "field:/iscp.Upstream.Config", "param:*"})) == 0, posOf(p, call), fnName(fn), "the duration of the ack timeout derives from ["+joinLeaves(dl)+"]; it must be UpstreamConfig.AckTimeout, the value the test beside it compares with zero")
+			r.Check(fnName(fn)+" timeout value", hasLeaf(dl, "field:/iscp.UpstreamConfig.AckTimeout") && (okAlt || len(leavesWithin(dl, []string{"field:/iscp.UpstreamConfig.AckTimeout", "field:/iscp.Upstream.Config", "param:*"})) == 0), posOf(p, call), fnName(fn), "the duration of the ack timeout derives from ["+joinLeaves(dl)+"]; it must be UpstreamConfig.AckTimeout, the value the test beside it compares with zero")
 		}
 	})
 	if !found {
